@@ -193,6 +193,34 @@ fn main() {
                     }
                 }
             }
+            "errline" => {
+                let line = format!("{}\n", p[1..].join(" "));
+                unsafe { libc::write(2, line.as_ptr() as _, line.len()) };
+            }
+            "streamcat" => {
+                // a streaming filter: tag first, then every chunk as it arrives; stops at EOF or when nobody reads
+                let mut ok = unsafe { libc::write(1, p[1].as_ptr() as _, p[1].len()) } > 0;
+                let mut buf = [0u8; 65536];
+                let mut n = 0usize;
+                while ok {
+                    let k = unsafe { libc::read(0, buf.as_mut_ptr() as _, buf.len()) };
+                    if k <= 0 {
+                        break;
+                    }
+                    n += k as usize;
+                    let mut off = 0usize;
+                    while off < k as usize {
+                        let w = unsafe { libc::write(1, buf.as_ptr().add(off) as _, k as usize - off) };
+                        if w <= 0 {
+                            ok = false;
+                            break;
+                        }
+                        off += w as usize;
+                    }
+                }
+                more.push_str(&format!("streamcat bytes={} ok={}\n", n, ok));
+                std::fs::write(&rep_path, format!("{}{}", rep, more)).ok();
+            }
             "close" => {
                 unsafe { libc::close(p[1].parse().unwrap()) };
             }
